@@ -25,9 +25,10 @@ Submit(k) == /\ ts[k] = "none" /\ ~inClear /\ ~inStop
              /\ ts' = [ts EXCEPT ![k] = "submitted"] /\ stopped' = FALSE
              /\ UNCHANGED <<inClear, inStop, live>>
 \* C07: at most once, never after destruction, not after stop() returned; C07: with one worker in submission order
-RunBeginM(k, m) ==
+\* before = the tasks known to have been submitted before k (with one submitting thread: all lower-numbered ones)
+RunBeginB(k, m, before) ==
     /\ ts[k] = "submitted" /\ ~stopped
-    /\ (m = 1 => ((\A j \in Waiting : k <= j) /\ (\A r \in Tasks : ts[r] # "running")))   \* one worker: in order, one task at a time
+    /\ (m = 1 => ((before \cap Waiting = {}) /\ (\A r \in Tasks : ts[r] # "running")))   \* one worker: in order, one task at a time
     /\ ts' = [ts EXCEPT ![k] = "running"]
     /\ UNCHANGED <<inClear, inStop, stopped, live>>
 RunEnd(k) == /\ ts[k] = "running"
@@ -63,6 +64,7 @@ Quiescent == /\ ~inClear /\ ~inStop /\ Waiting = {} /\ \A k \in Tasks : ts[k] # 
 Done == /\ \A k \in Tasks : ts[k] \in {"none", "destroyed"}
         /\ UNCHANGED pvars
 
+RunBeginM(k, m) == RunBeginB(k, m, {j \in Tasks : j < k})
 RunBegin(k) == RunBeginM(k, MaxThreads)
 WorkerStart(w) == WorkerStartM(w, MaxThreads)
 
